@@ -668,6 +668,11 @@ def data_iterator(data_field, chunksize=1 << 20):
 
 @exetera_njit
 def apply_filter_to_index_values(index_filter, indices, values):
+    # the filter must have exactly one entry per element of the indexed field; a longer filter would
+    # read past the end of 'indices' and a shorter one would silently drop the trailing elements
+    if len(index_filter) != max(len(indices) - 1, 0):
+        raise IndexError("boolean filter did not match indexed field: the filter must have one entry "
+                         "per element of the field")
     # pass 1 - determine the destination lengths
     cur_ = indices[:-1]
     next_ = indices[1:]
